@@ -133,7 +133,8 @@ def run(rep, tier, seed, replay):
         if whole is not None:
             got_whole = h.ask(["M %s %s" % (hexs(whole), hexs(w))])[0].startswith("match")
         else:
-            got_whole = h.ask(["MA %s %d %s" % (hexs(w), len(parts), " ".join(hexs(p) for p in parts))])[0].startswith("match")
+            mcmd = {"any": "MA", "any-compiled": "MAC", "any-owned": "MAO", "any-nested": "MAN" if len(parts) >= 2 else "MA"}[law]
+            got_whole = h.ask(["%s %s %d %s" % (mcmd, hexs(w), len(parts), " ".join(hexs(p) for p in parts))])[0].startswith("match")
         got_parts = [h.ask(["M %s %s" % (hexs(p), hexs(w))])[0].startswith("match") for p in parts]
         if got_whole == any(got_parts):
             rep.stats["witness-not-confirmed"] += 1
